@@ -652,9 +652,15 @@ class Visitor:
         Parameters:
             node: The node to visit.
         """
+        type_guarded = self.type_guarded
+        guard = False
         if isinstance(node.parent, (ast.Module, ast.ClassDef)):  # type: ignore[attr-defined]
             condition = safe_get_condition(node.test, parent=self.current, log_level=None)
             if str(condition) in {"typing.TYPE_CHECKING", "TYPE_CHECKING"}:
-                self.type_guarded = True
-        self.generic_visit(node)
-        self.type_guarded = False
+                guard = True
+        for child in ast_children(node):
+            # Only the body is type-guarded: the `else` branch runs at runtime.
+            self.type_guarded = type_guarded or (guard and any(child is stmt for stmt in node.body))
+            self.visit(child)
+        # Restore the previous state: a nested `if` must not end the guard of its enclosing block.
+        self.type_guarded = type_guarded
